@@ -6,6 +6,7 @@ require (
 	github.com/anishathalye/porcupine v1.3.0
 	github.com/google/uuid v1.6.0
 	github.com/high-moctane/mocrelay v0.0.0
+	github.com/mattn/go-sqlite3 v1.14.27
 	github.com/prometheus/client_golang v1.22.0
 	pgregory.net/rapid v1.3.0
 )
